@@ -14,6 +14,7 @@ ID_SETS = {
     'alias': ['a', 'a.jpg.z', 'b', 'b.xml.c'],
     'alias2': ['c', 'c.logits.1', 'a.xml', 'a'],
     'prefix': ['scan-7', 'scan-7-2', 'scan', 'scan (2)'],
+    'case': ['Page_1', 'page_1', 'zeta', 'Zeta'],
 }
 ALLOWED = {'ocr': ['xml', 'render', 'logits', 'alto', 'lines'],
            'decode': ['xml', 'alto'],
@@ -34,10 +35,10 @@ def gen_config(r, index=None, subset_cycle=False, force_mode=None):
         outputs = [k for k in allowed if r.random() < 0.6]
         if not outputs:
             outputs = [r.choice(allowed)]
-    cls = r.choice(['plain', 'plain', 'dotted', 'ext', 'alias', 'alias', 'alias2', 'prefix'])
+    cls = r.choice(['plain', 'plain', 'dotted', 'ext', 'alias', 'alias', 'alias2', 'prefix', 'case'])
     npages = r.randint(1, 4)
     ids = list(ID_SETS[cls])
-    if cls.startswith('alias') or cls == 'prefix':
+    if cls.startswith('alias') or cls in ('prefix', 'case'):
         ids = ids[:max(2, npages)]
     else:
         r.shuffle(ids)
